@@ -191,10 +191,10 @@ func (prop) Generate(r *prng.Rand, phase string) any {
 	cfg.PEmpty = []float64{0, 0.15, 0.4, 0.7}[r.Intn(4)]
 	cfg.MaxDepth = r.Range(0, 2)
 	cfg.Types = mgeom.AllTypes
-	if cfg.MaxCoords > 5 {
+	if cfg.MaxCoords > 5 && cfg.ExactCoords == 0 {
 		cfg.MaxCoords = 5
 	}
-	if cfg.MaxParts > 4 {
+	if cfg.MaxParts > 4 && cfg.ExactParts == 0 {
 		cfg.MaxParts = 4
 	}
 	cfg.MixLayout = false
